@@ -548,6 +548,7 @@ class Replayer:
         self.file_mode = file_mode
         self.child = child
         self.steps = 0
+        self.outside = {}
         self.probes = 0
         self.probe_result = None
         self.pickles = {}
@@ -558,7 +559,7 @@ class Replayer:
         return s
 
     def cleanup(self):
-        for f in (1, 2):
+        for f in (1, 2, 3):
             p = self.ad.file_path(f)
             if p.exists():
                 p.unlink()
@@ -588,6 +589,7 @@ class Replayer:
         objs = {"orig": ad.build(kind0, 1), "copy": None}
         stale = {"orig": False, "copy": False}   # D11 classification only (see c20.py)
         hist = []
+        oplog = {"orig": [], "copy": []}         # the calls each world has seen (for the twin, see below)
         try:
             for k in path:
                 src, dst, act, args = g.edges[k]
@@ -598,16 +600,26 @@ class Replayer:
                 if act == "Pickle":
                     if not self.do_pickle(objs, st, args[0], hist, stale):
                         return False
+                    oplog["copy"] = list(oplog["orig"])
                     continue
                 w = args[0]
                 o = "copy" if w == "orig" else "orig"
+                oplog[w].append((act, args, st))
                 before = ad.concrete(objs[o], with_cache=self.private_cache(objs, o, w)) if objs[o] is not None else None
                 base = self.sig(step=act, world=w, after_pickle=objs["copy"] is not None, ops=list(hist),
                                 cache=ad.kind(objs[w]))
                 if stale[w]:
                     base["stale_index"] = True
-                ok, out = ck.guard("SameBehaviour", base, self.do_action, objs[w], w, act, args, st)
-                if not ok:
+                try:
+                    out = self.do_action(objs[w], w, act, args, st)
+                except Exception as ex:  # noqa: BLE001
+                    import traceback
+
+                    tb = traceback.format_exc(limit=6)
+                    if self.twin_agrees(kind0, oplog[w], ("exc", type(ex).__name__), base):
+                        return True
+                    ck.violation("SameBehaviour", dict(base, exception=type(ex).__name__),
+                                 {"exception": repr(ex), "traceback": tb})
                     return False
                 self.track_stale(objs, stale, w, act, ret)
                 # returned values
@@ -619,6 +631,8 @@ class Replayer:
                     else:
                         want = ad.reference_jac(pt[0], pt[1])
                     if not same(out, want, ad.e.tol):
+                        if self.twin_agrees(kind0, oplog[w], ("val", out), dict(base, what="returned value")):
+                            return True
                         ck.violation("SameBehaviour", dict(base, what="returned value"),
                                      {"label": [pt, mem], "differs_at": diff_keys(out, want, ad.e.tol),
                                       "got": out, "expected": want, "ret": ret})
@@ -638,6 +652,8 @@ class Replayer:
                             clause = "CountersByValue"
                         else:
                             clause = "NoSharing" if ww != w else "SameBehaviour"
+                        if ww == w and self.twin_agrees(kind0, oplog[w], ("abs", ad.abstract(objs[w])), s):
+                            return True
                         ck.violation(clause, s, {"mismatches": bad, "ret": ret, "spec_state": self.world_cells(st, ww)})
                         return False
                 # the other world's in-memory state must not move
@@ -651,6 +667,48 @@ class Replayer:
         finally:
             objs.clear()
             self.cleanup()
+
+    def twin_agrees(self, kind0, ops, outcome, sig):
+        """The property compares a restored object with THE ORIGINAL.  When a world deviates from what the
+        specification computed, the same calls are made on a never-pickled twin (a fresh instance with its own
+        file): if the twin deviates in the same way, the deviation is not due to serialisation (the class departs
+        from the model of Lifecycle.tla with or without pickling, e.g. a cache-transparency defect) - it is
+        recorded in the evidence and is not a violation of C20.  Not used when both worlds share one file."""
+        if self.file_mode == "shared" and sig.get("after_pickle") and self.config.startswith("hdf"):
+            return False
+        ad = self.ad
+        twin = None
+        got = None
+        try:
+            twin = ad.build(kind0, 3)
+            for i, (act, args, st) in enumerate(ops):
+                last = i == len(ops) - 1
+                try:
+                    out = self.do_action(twin, "twin", act, args, st)
+                except Exception as ex:  # noqa: BLE001
+                    got = ("exc", type(ex).__name__)
+                    if not last:
+                        return False
+                    break
+                if last:
+                    got = ("abs", ad.abstract(twin)) if outcome[0] == "abs" else ("val", out)
+        except Exception:  # noqa: BLE001
+            return False
+        finally:
+            twin = None
+            p = ad.file_path(3) if ad.work is not None else None
+            if p is not None and p.exists():
+                p.unlink()
+        if got is None or got[0] != outcome[0]:
+            return False
+        agree = got[1] == outcome[1] if got[0] in ("exc", "abs") else same(got[1], outcome[1], ad.e.tol)
+        if agree:
+            key = (ad.e.name, sig.get("step"), sig.get("what", outcome[1] if outcome[0] == "exc" else outcome[0]))
+            rec = self.outside.setdefault(key, {"class": ad.e.name, "config": self.config, "step": sig.get("step"),
+                                                "what": sig.get("what") or f"raises {outcome[1]}",
+                                                "ops": sig.get("ops"), "count": 0})
+            rec["count"] += 1
+        return agree
 
     # -- helpers
     def private_cache(self, objs, o, w):
@@ -681,7 +739,7 @@ class Replayer:
         if act == "SetSetting":
             return ad.set_setting(obj, st["ret"]["v"])
         if act == "SetCache":
-            f = 1 if (w == "orig" or self.file_mode == "shared") else 2
+            f = 3 if w == "twin" else (1 if (w == "orig" or self.file_mode == "shared") else 2)
             return ad.set_cache(obj, args[1], f)
         if act == "ClearCache":
             return ad.clear_cache(obj)
